@@ -1,8 +1,892 @@
-//! C11 — not built yet.
+//! C11 — a playing tape presents each TAP block as the standard loader waveform.
+//! Component level: the real `Tap` (hook `verif_tape`) is driven with step schedules of 1..16 T and
+//! the times of its EAR edges are compared exactly with the Lean model and, through the waveform
+//! spec, with the standard pulse sequence. System level: the real 48K ROM loads the playing tape in
+//! real time and the result is compared with fast loading and with the LD-BYTES spec.
+use crate::c10::{self, Fill, Req};
+use crate::host::*;
 use crate::util::*;
+use rustzx_core::zx::verif_tape::{Tap, TapeImpl};
+use rustzx_z80::RegName16;
+use std::panic::{catch_unwind, AssertUnwindSafe};
 
-pub fn run(_o: &Opts) -> Report {
+// ---------------------------------------------------------------- schedules and commands
+
+/// Step `i` of schedule `kind` (mirrors `nextStep` in lean/Driver/C11.lean).
+pub fn next_step(kind: u8, seed: u32, i: u64, rng: &mut Rng) -> usize {
+    match kind {
+        5 => seed as usize,
+        1 => (seed % 16 + 1) as usize,
+        3 => {
+            if i % 2 == 0 {
+                16
+            } else {
+                1
+            }
+        }
+        2 => {
+            let x = rng.next();
+            if x % 16 == 0 {
+                16
+            } else {
+                1 + ((x >> 8) % 4) as usize
+            }
+        }
+        4 => {
+            let x = rng.next();
+            [3usize, 4, 4, 4, 5, 6, 7, 8, 3, 1][(x % 10) as usize]
+        }
+        _ => {
+            let x = rng.next();
+            1 + (x % 16) as usize
+        }
+    }
+}
+
+#[derive(Clone, Debug, PartialEq)]
+pub enum Cmd {
+    Play,
+    Stop,
+    Rewind,
+    Run { kind: u8, seed: u32, n: u64 },
+}
+
+impl Cmd {
+    pub fn line(&self) -> String {
+        match self {
+            Cmd::Play => "cmd play".into(),
+            Cmd::Stop => "cmd stop".into(),
+            Cmd::Rewind => "cmd rewind".into(),
+            Cmd::Run { kind, seed, n } => format!("run {:x} {:x} {:x}", kind, seed, n),
+        }
+    }
+    pub fn parse(s: &str) -> Option<Cmd> {
+        let t: Vec<&str> = s.split_whitespace().collect();
+        match t.as_slice() {
+            ["cmd", "play"] => Some(Cmd::Play),
+            ["cmd", "stop"] => Some(Cmd::Stop),
+            ["cmd", "rewind"] => Some(Cmd::Rewind),
+            ["run", k, s, n] => Some(Cmd::Run {
+                kind: u8::from_str_radix(k, 16).ok()?,
+                seed: u32::from_str_radix(s, 16).ok()?,
+                n: u64::from_str_radix(n, 16).ok()?,
+            }),
+            _ => None,
+        }
+    }
+}
+
+/// The real pulse generator plus the harness' clock.
+pub struct RealTap {
+    pub tap: Tap<VAsset>,
+    pub now: u64,
+    pub stop_time: Option<u64>,
+    pub all_edges: Vec<(u64, bool)>,
+}
+
+#[derive(Clone, Debug, PartialEq)]
+pub struct RunObs {
+    pub status: String,
+    pub now: u64,
+    pub stopped: bool,
+    pub stop_time: Option<u64>,
+    pub edges: Vec<(u64, bool)>,
+}
+
+impl RunObs {
+    pub fn text(&self) -> String {
+        let mut s = format!(
+            "{} {:x} {} {} E",
+            self.status,
+            self.now,
+            if self.stopped { 1 } else { 0 },
+            self.stop_time.map(|t| format!("{:x}", t)).unwrap_or("-".into())
+        );
+        for (t, l) in &self.edges {
+            s.push_str(&format!(" {:x}:{}", t, if *l { 1 } else { 0 }));
+        }
+        s
+    }
+}
+
+impl RealTap {
+    pub fn new(tape: &[u8], chunk: usize) -> RealTap {
+        let mut a = VAsset::new(tape.to_vec());
+        a.max_chunk = chunk;
+        let tap = match Tap::from_asset(a) {
+            Ok(t) => t,
+            Err(_) => panic!("Tap::from_asset failed"),
+        };
+        RealTap { tap, now: 0, stop_time: None, all_edges: vec![] }
+    }
+
+    /// Applies a command; `Run` returns what was observed.
+    pub fn cmd(&mut self, c: &Cmd) -> Option<RunObs> {
+        match c {
+            Cmd::Play => {
+                self.tap.play();
+                None
+            }
+            Cmd::Stop => {
+                self.tap.stop();
+                None
+            }
+            Cmd::Rewind => {
+                let _ = self.tap.rewind();
+                None
+            }
+            Cmd::Run { kind, seed, n } => {
+                let mut rng = Rng::new(*seed as u64);
+                let mut edges = vec![];
+                let mut status = "ok".to_string();
+                for i in 0..*n {
+                    let c = next_step(*kind, *seed, i, &mut rng);
+                    let was_running = !self.tap.can_fast_load();
+                    let lvl = self.tap.current_bit();
+                    let r = catch_unwind(AssertUnwindSafe(|| self.tap.process_clocks(c)));
+                    self.now += c as u64;
+                    let l2 = self.tap.current_bit();
+                    if l2 != lvl {
+                        edges.push((self.now, l2));
+                    }
+                    if was_running && self.tap.can_fast_load() && self.stop_time.is_none() {
+                        self.stop_time = Some(self.now);
+                    }
+                    match r {
+                        Err(_) => {
+                            status = "panic".into();
+                            break;
+                        }
+                        Ok(Err(e)) => {
+                            status = c10::err_name(&format!("{:?}", e));
+                            break;
+                        }
+                        Ok(Ok(())) => {}
+                    }
+                }
+                self.all_edges.extend_from_slice(&edges);
+                Some(RunObs {
+                    status,
+                    now: self.now,
+                    stopped: self.tap.can_fast_load(),
+                    stop_time: self.stop_time,
+                    edges,
+                })
+            }
+        }
+    }
+}
+
+pub fn edges_text(edges: &[(u64, bool)]) -> String {
+    let mut s = String::new();
+    for (t, l) in edges {
+        s.push_str(&format!(" {:x}:{}", t, if *l { 1 } else { 0 }));
+    }
+    s
+}
+
+#[derive(Clone, Debug, PartialEq)]
+pub struct Case {
+    pub tape: Vec<u8>,
+    pub chunk: usize,
+    pub cmds: Vec<Cmd>,
+}
+
+pub fn case_text(c: &Case) -> String {
+    let mut s = format!(
+        "component chunk={} tape={}",
+        c.chunk,
+        if c.tape.is_empty() { "-".to_string() } else { hex(&c.tape) }
+    );
+    for k in &c.cmds {
+        s.push_str(" ; ");
+        s.push_str(&k.line());
+    }
+    s
+}
+
+pub fn parse_case(s: &str) -> Case {
+    let mut parts = s.split(';').map(|x| x.trim());
+    let head = parts.next().unwrap_or("");
+    let mut tape = vec![];
+    let mut chunk = 0;
+    for kv in head.split_whitespace() {
+        if let Some(h) = kv.strip_prefix("tape=") {
+            if h != "-" {
+                tape = unhex(h);
+            }
+        }
+        if let Some(h) = kv.strip_prefix("chunk=") {
+            chunk = h.parse().unwrap_or(0);
+        }
+    }
+    Case { tape, chunk, cmds: parts.filter_map(Cmd::parse).collect() }
+}
+
+#[derive(Clone, Debug)]
+pub struct Dis {
+    pub kind: Kind,
+    pub key: String,
+    pub what: String,
+    pub implementation: String,
+    pub expected: String,
+}
+
+fn first_diff(a: &[(u64, bool)], b: &[(u64, bool)]) -> String {
+    let k = a.iter().zip(b.iter()).position(|(x, y)| x != y).unwrap_or(a.len().min(b.len()));
+    let show = |v: &[(u64, bool)]| {
+        v.get(k)
+            .map(|(t, l)| format!("edge #{} at T={} to level {}", k, t, if *l { 1 } else { 0 }))
+            .unwrap_or(format!("no edge #{}", k))
+    };
+    format!("{} vs {}", show(a), show(b))
+}
+
+fn parse_edges(t: &[&str]) -> Vec<(u64, bool)> {
+    t.iter()
+        .filter_map(|e| {
+            let (a, b) = e.split_once(':')?;
+            Some((u64::from_str_radix(a, 16).ok()?, b == "1"))
+        })
+        .collect()
+}
+
+/// Component-level case against the `C11` driver: edges exactly as the model, waveform as the spec.
+pub fn run_case(model: &mut Model, fixed: bool, c: &Case, mut rep: Option<&mut Report>) -> Option<Dis> {
+    let mut real = RealTap::new(&c.tape, c.chunk);
+    let mut lines = vec![
+        format!("variant {}", if fixed { 1 } else { 0 }),
+        format!("tape {}", if c.tape.is_empty() { "-".to_string() } else { hex(&c.tape) }),
+    ];
+    let mut obs = vec![];
+    for k in &c.cmds {
+        lines.push(k.line());
+        obs.push(real.cmd(k));
+    }
+    lines.push("verdict".into());
+    let answers = model.ask_many(&lines);
+    let mut mismatch: Option<(String, String, String)> = None;
+    for (i, o) in obs.iter().enumerate() {
+        let ans = &answers[i + 2];
+        if let Some(o) = o {
+            if let Some(r) = rep.as_deref_mut() {
+                // every edge time is one exact comparison, plus status/stop time of the run
+                r.evaluations += o.edges.len() as u64 + 1;
+                r.count_n("edges_compared", "edges", o.edges.len() as u64);
+            }
+            let got = o.text();
+            if &got != ans && mismatch.is_none() {
+                let t: Vec<&str> = ans.split(' ').collect();
+                let medges = if t.len() > 5 { parse_edges(&t[5..]) } else { vec![] };
+                let head_m = t.iter().take(4).cloned().collect::<Vec<_>>().join(" ");
+                let head_i = got.split(' ').take(4).collect::<Vec<_>>().join(" ");
+                let what = if medges != o.edges {
+                    format!("command {} ({}): {}", i, c.cmds[i].line(), first_diff(&o.edges, &medges))
+                } else {
+                    format!("command {} ({}): status/time/stop '{}' vs '{}'", i, c.cmds[i].line(), head_i, head_m)
+                };
+                mismatch = Some((what, truncate(&got, 200), truncate(ans, 200)));
+            }
+        } else {
+            assert_eq!(ans, "ok", "driver rejected {}", lines[i + 2]);
+        }
+    }
+    // the waveform spec adjudicates the implementation's edges
+    let verdict_model = answers.last().unwrap().clone();
+    let verdict = if mismatch.is_some() {
+        model.ask(&format!(
+            "adjudicate {}{}",
+            real.stop_time.map(|t| format!("{:x}", t)).unwrap_or("-".into()),
+            edges_text(&real.all_edges)
+        ))
+    } else {
+        verdict_model
+    };
+    if let Some(r) = rep.as_deref_mut() {
+        r.count("spec_verdict", verdict.split(':').next().unwrap_or("?").to_string());
+    }
+    if let Some(v) = verdict.strip_prefix("violates:") {
+        let class = v.split(':').last().unwrap_or(v).to_string();
+        return Some(Dis {
+            kind: Kind::SpecViolated,
+            key: format!("C11/waveform/{}", class),
+            what: format!("the EAR waveform is not the standard one: {}", v),
+            implementation: mismatch.as_ref().map(|m| m.1.clone()).unwrap_or(truncate(&edges_text(&real.all_edges), 200)),
+            expected: format!("standard waveform of the tape (Spec.acceptsBlock); verdict {}", verdict),
+        });
+    }
+    if let Some((what, got, want)) = mismatch {
+        return Some(Dis {
+            kind: Kind::ModelMismatch,
+            key: "C11/model/edges".into(),
+            what,
+            implementation: got,
+            expected: want,
+        });
+    }
+    None
+}
+
+pub fn truncate(s: &str, n: usize) -> String {
+    c10::truncate_text(s, n)
+}
+
+// ---------------------------------------------------------------- generation
+
+pub fn encode(blocks: &[Vec<u8>]) -> Vec<u8> {
+    let mut t = vec![];
+    for b in blocks {
+        t.push((b.len() & 0xFF) as u8);
+        t.push((b.len() >> 8) as u8);
+        t.extend_from_slice(b);
+    }
+    t
+}
+
+/// Nominal duration of a block in T-states (for sizing runs).
+pub fn nominal_t(b: &[u8]) -> u64 {
+    if b.is_empty() {
+        return 0;
+    }
+    let pilot = if b[0] == 0 { 8063 } else { 3223 };
+    let mut t = pilot * 2168 + 667 + 735 + 3_500_000;
+    for v in b {
+        let ones = v.count_ones() as u64;
+        t += ones * 2 * 1710 + (8 - ones) * 2 * 855;
+    }
+    t
+}
+
+pub fn gen_blocks(rng: &mut Rng, idx: u64) -> Vec<Vec<u8>> {
+    // every few tapes: a block with all 256 byte values, a block crossing the 128-byte buffer, a header block
+    let mut blocks = vec![];
+    let n = if rng.chance(1, 3) { 2 } else { 1 };
+    for j in 0..n {
+        let mut b = match (idx + j) % 6 {
+            0 => {
+                let mut v: Vec<u8> = (0..=255u8).collect();
+                // random rotation so that every value meets every buffer position over time
+                let r = rng.below(256) as usize;
+                v.rotate_left(r);
+                let mut b = vec![0xFF];
+                b.extend(v);
+                b
+            }
+            1 => {
+                let len = *rng.pick(&[127usize, 128, 129, 130, 255, 256, 257]);
+                let mut b = vec![0xFFu8];
+                b.extend(rng.bytes(len - 1));
+                b
+            }
+            2 => {
+                // header-like block: flag 0, long pilot
+                let mut b = vec![0x00u8];
+                b.extend(rng.bytes(17));
+                b
+            }
+            _ => {
+                let len = rng.range(1, 24) as usize;
+                let mut b = vec![if rng.bool() { 0xFF } else { rng.u8() | 1 }];
+                b.extend(rng.bytes(len - 1));
+                b
+            }
+        };
+        let x = b.iter().fold(0u8, |a, v| a ^ v);
+        b.push(x);
+        blocks.push(b);
+    }
+    blocks
+}
+
+pub fn gen_runs(rng: &mut Rng, total_t: u64) -> Vec<Cmd> {
+    // split the tape's duration (plus a margin past the end) into 1-3 runs with different schedules
+    let mut cmds = vec![];
+    let parts = rng.range(1, 3);
+    let mut left = total_t + 200_000;
+    for p in 0..parts {
+        let kind = rng.below(5) as u8;
+        let seed = rng.next() as u32;
+        let avg: f64 = match kind {
+            1 => (seed % 16 + 1) as f64,
+            2 => 3.3,
+            3 => 8.5,
+            4 => 4.5,
+            _ => 8.5,
+        };
+        let t = if p + 1 == parts { left } else { rng.range(left / 8, left / 2) };
+        let n = ((t as f64) / avg * 1.15) as u64 + 64;
+        cmds.push(Cmd::Run { kind, seed, n });
+        left = left.saturating_sub(t);
+    }
+    cmds
+}
+
+fn shrink(model: &mut Model, fixed: bool, c: &Case, key: &str) -> Case {
+    let mut cur = c.clone();
+    let mut budget = 40;
+    loop {
+        let mut cands: Vec<Case> = vec![];
+        let (blocks, tail) = split(&cur.tape);
+        for i in 0..blocks.len() {
+            if blocks.len() > 1 {
+                let mut b = blocks.clone();
+                b.remove(i);
+                cands.push(Case { tape: [encode(&b), tail.clone()].concat(), ..cur.clone() });
+            }
+            for newlen in [1usize, 2, blocks[i].len() / 2] {
+                if newlen >= 1 && newlen < blocks[i].len() {
+                    let mut b = blocks.clone();
+                    b[i].truncate(newlen);
+                    cands.push(Case { tape: [encode(&b), tail.clone()].concat(), ..cur.clone() });
+                }
+            }
+            if !blocks[i].is_empty() && (blocks[i].iter().skip(1).any(|v| *v != 0) || blocks[i][0] != 0xFF) {
+                let mut b = blocks.clone();
+                for v in b[i].iter_mut() {
+                    *v = 0;
+                }
+                b[i][0] = 0xFF;
+                cands.push(Case { tape: [encode(&b), tail.clone()].concat(), ..cur.clone() });
+            }
+        }
+        if cur.cmds.len() > 2 {
+            // merge all runs into one constant-step run
+            let total: u64 = cur.cmds.iter().map(|k| if let Cmd::Run { n, .. } = k { *n } else { 0 }).sum();
+            let mut cmds: Vec<Cmd> = cur.cmds.iter().filter(|k| !matches!(k, Cmd::Run { .. })).cloned().collect();
+            cmds.push(Cmd::Run { kind: 1, seed: 7, n: total * 2 });
+            cands.push(Case { cmds, ..cur.clone() });
+        }
+        if cur.chunk != 0 {
+            cands.push(Case { chunk: 0, ..cur.clone() });
+        }
+        let mut changed = false;
+        for cand in cands {
+            if budget == 0 {
+                return cur;
+            }
+            budget -= 1;
+            if let Some(d) = run_case(model, fixed, &cand, None) {
+                if d.key == key {
+                    cur = cand;
+                    changed = true;
+                    break;
+                }
+            }
+        }
+        if !changed {
+            return cur;
+        }
+    }
+}
+
+pub fn split(tape: &[u8]) -> (Vec<Vec<u8>>, Vec<u8>) {
+    let mut p = 0;
+    let mut blocks = vec![];
+    while p + 2 <= tape.len() {
+        let n = tape[p] as usize + 256 * tape[p + 1] as usize;
+        if p + 2 + n > tape.len() {
+            break;
+        }
+        blocks.push(tape[p + 2..p + 2 + n].to_vec());
+        p += 2 + n;
+    }
+    (blocks, tape[p..].to_vec())
+}
+
+fn report_failure(model: &mut Model, rep: &mut Report, fixed: bool, c: &Case, d: Dis) {
+    if rep.has_key(&d.key) {
+        rep.count("repeat_violations", d.key.clone());
+        return;
+    }
+    let small = shrink(model, fixed, c, &d.key);
+    let d2 = run_case(model, fixed, &small, None).unwrap_or(d);
+    rep.violation(Violation {
+        kind: d2.kind,
+        key: d2.key.clone(),
+        what: format!("{} [case: {}]", d2.what, truncate(&case_text(&small), 300)),
+        correspondence: "corr.C11.edges (Model.Tape.processClocks/fire vs Tap::process_clocks/current_bit)".into(),
+        case: J::obj(vec![("text", J::s(case_text(&small)))]),
+        implementation: d2.implementation.clone(),
+        expected: d2.expected.clone(),
+    });
+}
+
+// ---------------------------------------------------------------- system level: the real ROM loader
+
+#[derive(Clone, Debug, PartialEq)]
+pub enum SysOp {
+    Play,
+    Stop,
+    Rewind,
+    /// let the machine idle (JR $ at the return address) for so many frames
+    Idle(usize),
+    Load(Req),
+}
+
+#[derive(Clone, Debug, PartialEq)]
+pub struct SysCase {
+    pub tape: Vec<u8>,
+    pub ops: Vec<SysOp>,
+}
+
+pub fn sys_text(c: &SysCase) -> String {
+    let mut s = format!("system tape={}", if c.tape.is_empty() { "-".to_string() } else { hex(&c.tape) });
+    for o in &c.ops {
+        s.push_str(" ; ");
+        match o {
+            SysOp::Play => s.push_str("play"),
+            SysOp::Stop => s.push_str("stop"),
+            SysOp::Rewind => s.push_str("rewind"),
+            SysOp::Idle(n) => s.push_str(&format!("idle {}", n)),
+            SysOp::Load(r) => s.push_str(&format!(
+                "req {:02x} {} {:04x} {:04x} {}",
+                r.a,
+                if r.load { 1 } else { 0 },
+                r.ix,
+                r.de,
+                match &r.fill {
+                    Fill::Bytes(b) if !b.is_empty() => format!("h:{}", hex(b)),
+                    _ => "-".to_string(),
+                }
+            )),
+        }
+    }
+    s
+}
+
+pub fn parse_sys(s: &str) -> SysCase {
+    let mut parts = s.split(';').map(|x| x.trim());
+    let head = parts.next().unwrap_or("");
+    let mut tape = vec![];
+    for kv in head.split_whitespace() {
+        if let Some(h) = kv.strip_prefix("tape=") {
+            if h != "-" {
+                tape = unhex(h);
+            }
+        }
+    }
+    let mut ops = vec![];
+    for p in parts {
+        let t: Vec<&str> = p.split_whitespace().collect();
+        match t.as_slice() {
+            ["play"] => ops.push(SysOp::Play),
+            ["stop"] => ops.push(SysOp::Stop),
+            ["rewind"] => ops.push(SysOp::Rewind),
+            ["idle", n] => ops.push(SysOp::Idle(n.parse().unwrap_or(0))),
+            ["req", a, l, ix, de, f] => ops.push(SysOp::Load(Req {
+                a: u8::from_str_radix(a, 16).unwrap_or(0),
+                load: *l == "1",
+                ix: u16::from_str_radix(ix, 16).unwrap_or(0),
+                de: u16::from_str_radix(de, 16).unwrap_or(0),
+                fill: match f.strip_prefix("h:") {
+                    Some(h) => Fill::Bytes(unhex(h)),
+                    None => Fill::None,
+                },
+            })),
+            _ => {}
+        }
+    }
+    SysCase { tape, ops }
+}
+
+#[derive(Clone, Debug, PartialEq)]
+pub struct LoadObs {
+    pub outcome: String,
+    pub ix: u16,
+    pub de: u16,
+    pub win: Vec<u8>,
+}
+
+/// One LD-BYTES call on `e` (real time or fast, depending on how `e` was built); `frames` bounds
+/// the wait for the return.
+pub fn sys_load(e: &mut Emu, r: &Req, span: usize, frames: usize, realtime: bool) -> (Vec<u8>, LoadObs) {
+    for (i, b) in r.fill.bytes().iter().enumerate() {
+        e.verif_write_mem(r.ix.wrapping_add(i as u16), *b, 0);
+    }
+    let before: Vec<u8> = (0..span).map(|i| e.peek(r.ix.wrapping_add(i as u16))).collect();
+    c10::setup_call(e, r, 0, !realtime);
+    let outcome = c10::run_until_return(e, frames);
+    let cpu = e.verif_cpu();
+    let ix = cpu.regs.get_reg_16(RegName16::IX);
+    let de = cpu.regs.get_de();
+    let win = (0..span).map(|i| e.peek(r.ix.wrapping_add(i as u16))).collect();
+    (before, LoadObs { outcome, ix, de, win })
+}
+
+/// Parks the CPU in `JR $` at the return address (interrupts off) and lets `frames` frames pass.
+pub fn sys_idle(e: &mut Emu, frames: usize) {
+    e.verif_write_mem(c10::RET_ADDR + 0x10, 0x18, 0);
+    e.verif_write_mem(c10::RET_ADDR + 0x11, 0xFE, 0);
+    let cpu = e.verif_cpu();
+    cpu.regs.set_pc(c10::RET_ADDR + 0x10);
+    cpu.regs.set_iff1(false);
+    cpu.regs.set_iff2(false);
+    cpu.halted = false;
+    for _ in 0..frames {
+        let _ = catch_unwind(AssertUnwindSafe(|| e.emulate_frames(std::time::Duration::from_secs(3600))));
+    }
+}
+
+/// Runs the ops on a real-time emulator (fast load off; the tape deck is operated through
+/// Emulator::play_tape/stop_tape/rewind_tape) and returns the observation of every load.
+pub fn sys_realtime(c: &SysCase) -> Vec<(Req, Vec<u8>, LoadObs)> {
+    let mut e = c10::new_emu(false, &c.tape, false);
+    let maxblk = c.tape.len();
+    let mut out = vec![];
+    for o in &c.ops {
+        match o {
+            SysOp::Play => e.play_tape(),
+            SysOp::Stop => e.stop_tape(),
+            SysOp::Rewind => {
+                let _ = e.rewind_tape();
+            }
+            SysOp::Idle(n) => sys_idle(&mut e, *n),
+            SysOp::Load(r) => {
+                let span = c10::window_span(r.de, maxblk);
+                // a header block needs ~370 frames; allow generously, a silent tape is cut off here
+                let (wb, obs) = sys_load(&mut e, r, span, 700, true);
+                out.push((r.clone(), wb, obs));
+            }
+        }
+    }
+    out
+}
+
+/// System-level case: real-time ROM loads vs the LD-BYTES spec / fast-load model served by the `C10`
+/// driver with the expected block sequence `expect_tape` (what the deck should deliver, in order).
+pub fn run_sys_case(m10: &mut Model, c: &SysCase, expect_tape: &[u8], prop: &str, mut rep: Option<&mut Report>) -> Option<Dis> {
+    let loads = sys_realtime(c);
+    // fast-load reference on a second emulator with the expected block sequence
+    let mut fast = c10::new_emu(false, expect_tape, true);
+    let a0 = m10.ask("variant 1");
+    assert_eq!(a0, "ok");
+    let a1 = m10.ask(&format!("tape {}", if expect_tape.is_empty() { "-".to_string() } else { hex(expect_tape) }));
+    assert!(a1.starts_with("ok"));
+    for (i, (r, wb, obs)) in loads.iter().enumerate() {
+        let span = wb.len();
+        // same memory contents for the fast path
+        for (k, b) in wb.iter().enumerate() {
+            fast.verif_write_mem(r.ix.wrapping_add(k as u16), *b, 0);
+        }
+        let (_, fobs) = sys_load(&mut fast, &Req { fill: Fill::None, ..r.clone() }, span, 2, false);
+        let ans = m10.ask(&format!(
+            "req {:02x} {} {:04x} {:04x} {:04x} {}",
+            r.a,
+            if r.load { 1 } else { 0 },
+            r.ix,
+            r.de,
+            c10::SP0,
+            if wb.is_empty() { "-".to_string() } else { hex(wb) }
+        ));
+        let t: Vec<&str> = ans.split(' ').collect();
+        // M o ix de win S o ix de win
+        let spec = if t.len() >= 10 && t[5] == "S" {
+            Some(LoadObs {
+                outcome: t[6].to_string(),
+                ix: u16::from_str_radix(t[7], 16).unwrap(),
+                de: u16::from_str_radix(t[8], 16).unwrap(),
+                win: if t[9] == "-" { vec![] } else { unhex(t[9]) },
+            })
+        } else {
+            None
+        };
+        if let Some(rp) = rep.as_deref_mut() {
+            rp.eval();
+            rp.count("rom_loads", obs.outcome.clone());
+            rp.class(format!("rom-load {} {} de={}", obs.outcome, if r.load { "load" } else { "verify" }, r.de.min(2)));
+        }
+        let show = |o: &LoadObs| format!("{} ix={:04x} de={:04x} mem={}", o.outcome, o.ix, o.de, truncate(&hex(&o.win), 48));
+        if let Some(s) = &spec {
+            if s != obs {
+                return Some(Dis {
+                    kind: Kind::SpecViolated,
+                    key: format!("{}/rom-load", prop),
+                    what: format!(
+                        "load {} (A={:02x} {} IX={:04x} DE={:04x}) by the real ROM from the playing tape differs from LD-BYTES on the expected block",
+                        i, r.a, if r.load { "LOAD" } else { "VERIFY" }, r.ix, r.de
+                    ),
+                    implementation: show(obs),
+                    expected: show(s),
+                });
+            }
+        }
+        // fast loading is only defined to agree when a block is there (its end-of-tape defect is C10's)
+        if fobs != *obs && spec.as_ref().map(|s| s.outcome != "loops").unwrap_or(false) {
+            return Some(Dis {
+                kind: Kind::SpecViolated,
+                key: format!("{}/rom-vs-fastload", prop),
+                what: format!("load {}: real-time ROM load and fast load of the same block differ", i),
+                implementation: show(obs),
+                expected: show(&fobs),
+            });
+        }
+    }
+    None
+}
+
+pub fn gen_sys_case(rng: &mut Rng, idx: u64) -> SysCase {
+    // small tapes: the pilot dominates the cost (about 100 frames per data block, 250 per header)
+    let nb = if idx % 3 == 0 { 2 } else { 1 };
+    let mut blocks = vec![];
+    for j in 0..nb {
+        let len = if (idx + j) % 4 == 1 { rng.range(130, 200) as usize } else { rng.range(2, 20) as usize };
+        let flag = if idx % 5 == 4 && j == 0 { 0x00 } else { 0xFF };
+        let mut b = vec![flag];
+        b.extend(rng.bytes(len - 1));
+        let mut x = b.iter().fold(0u8, |a, v| a ^ v);
+        if rng.chance(1, 8) {
+            x ^= 0x10;
+        }
+        b.push(x);
+        blocks.push(b);
+    }
+    let mut ops = vec![SysOp::Play];
+    for (j, b) in blocks.iter().enumerate() {
+        let last = j + 1 == blocks.len();
+        let matching = (b.len() - 2) as u16;
+        // requests that leave the tape in mid-block are only issued last
+        let de = if last {
+            match rng.below(6) {
+                0 => matching.saturating_sub(1),
+                1 => 0,
+                _ => matching,
+            }
+        } else if rng.chance(1, 5) {
+            matching + 3
+        } else {
+            matching
+        };
+        let a = if last && rng.chance(1, 6) { b[0] ^ 0x55 } else { b[0] };
+        let load = rng.chance(2, 3);
+        let fill = if load {
+            Fill::None
+        } else {
+            let mut d = b[1..].to_vec();
+            d.truncate(de as usize);
+            if rng.chance(1, 4) && !d.is_empty() {
+                let k = rng.below(d.len() as u64) as usize;
+                d[k] ^= 4;
+            }
+            Fill::Bytes(d)
+        };
+        ops.push(SysOp::Load(Req { a, load, ix: rng.range(0x4000, 0xF000) as u16, de, fill }));
+    }
+    SysCase { tape: encode(&blocks), ops }
+}
+
+fn report_sys_failure(rep: &mut Report, c: &SysCase, d: Dis) {
+    if rep.has_key(&d.key) {
+        rep.count("repeat_violations", d.key.clone());
+        return;
+    }
+    rep.violation(Violation {
+        kind: d.kind,
+        key: d.key.clone(),
+        what: format!("{} [case: {}]", d.what, truncate(&sys_text(c), 300)),
+        correspondence: "corr.C11.rom (real ROM LD-BYTES on the playing tape vs Spec.ldBytes / fast load)".into(),
+        case: J::obj(vec![("text", J::s(sys_text(c)))]),
+        implementation: d.implementation.clone(),
+        expected: d.expected.clone(),
+    });
+}
+
+pub fn run(o: &Opts) -> Report {
     let mut rep = Report::new("C11");
-    rep.notes.push("not built yet".into());
+    rep.rule = "component level: TAP images of 1-2 non-empty blocks (rotating through: all 256 byte values, lengths \
+127..130/255..257 around the 128-byte buffer, header blocks with flag 0x00 and the long pilot, short random blocks) played on the real \
+Tap<VAsset> (short reads varied) under 1-3 consecutive step schedules (uniform 1..16, constant, mostly 1..4, alternating 16/1, \
+instruction-like) until past the end of the tape; every EAR edge time and the stop time compared exactly with the Lean model and the \
+pulse list adjudicated by the waveform spec (pilot count, 2168/667/735/855/1710 within +0..32 T, pause 3.0-4.5 MT); malformed images \
+(empty block, truncated block) compared with the model only. System level: the real 48K ROM LD-BYTES loading the playing tape in real \
+time (1-2 small blocks, LOAD/VERIFY, matching/short/zero/long DE, wrong flag, bad checksum) compared with Spec.ldBytes and with fast \
+loading. distinct/non-trivial = distinct (schedule kind, block class) of component runs that reached the end of the tape plus distinct \
+ROM load classes"
+        .into();
+    let mut model = Model::spawn(&o.model, "C11");
+    let mut m10 = Model::spawn(&o.model, "C10");
+    let fixed = detect_variant();
+    rep.extra.push(("tree_variant".into(), J::s(if fixed { "stop/rewind repaired (C12-1 present)" } else { "code as found" })));
+
+    if let Some(text) = &o.replay {
+        rep.sample(J::s(truncate(text, 400)));
+        if text.starts_with("system") {
+            let c = parse_sys(text);
+            if let Some(d) = run_sys_case(&mut m10, &c, &c.tape.clone(), "C11", Some(&mut rep)) {
+                report_sys_failure(&mut rep, &c, d);
+            }
+        } else {
+            let c = parse_case(text);
+            if let Some(d) = run_case(&mut model, fixed, &c, Some(&mut rep)) {
+                report_failure(&mut model, &mut rep, fixed, &c, d);
+            }
+        }
+        return rep;
+    }
+
+    // 1. component level
+    let mut rng = Rng::new(o.seed ^ 0x0C11);
+    let ntapes = o.n(48, 2000);
+    for idx in 0..ntapes {
+        let mut r = rng.fork();
+        let blocks = gen_blocks(&mut r, idx);
+        let total: u64 = blocks.iter().map(|b| nominal_t(b)).sum();
+        let mut cmds = vec![Cmd::Play];
+        cmds.extend(gen_runs(&mut r, total));
+        let c = Case { tape: encode(&blocks), chunk: *r.pick(&[0usize, 0, 1, 100]), cmds };
+        for b in &blocks {
+            rep.count("block_class", match b.len() { 0..=30 => if b[0] == 0 { "header (flag 00)" } else { "short" }, 31..=200 => "127-130", 201..=257 => "255-257", _ => "all byte values" });
+        }
+        for k in &c.cmds {
+            if let Cmd::Run { kind, .. } = k {
+                rep.count("schedule_kind", ["uniform 1..16", "constant", "mostly 1..4", "alternating 16/1", "instruction-like"][*kind as usize]);
+                rep.class(format!("kind {} blocks {:?}", kind, blocks.iter().map(|b| (b.len() / 64, b[0] == 0)).collect::<Vec<_>>()));
+            }
+        }
+        if idx < 2 {
+            rep.sample(J::s(truncate(&case_text(&c), 300)));
+        }
+        if let Some(d) = run_case(&mut model, fixed, &c, Some(&mut rep)) {
+            rep.count("disagreeing_cases", format!("{:?} {}", d.kind, d.key));
+            report_failure(&mut model, &mut rep, fixed, &c, d);
+        }
+    }
+    // malformed images: model only
+    for (i, tape) in [vec![0u8, 0], vec![2, 0, 0xFF], vec![3, 0, 0xFF, 1, 0xFE, 0, 0, 2, 0, 0xFF, 0xFF], vec![0x90, 0, 0xFF, 1, 2, 3]].iter().enumerate() {
+        let c = Case { tape: tape.clone(), chunk: 0, cmds: vec![Cmd::Play, Cmd::Run { kind: 0, seed: i as u32, n: 3_000_000 }] };
+        rep.count("block_class", "malformed image");
+        if let Some(d) = run_case(&mut model, fixed, &c, Some(&mut rep)) {
+            report_failure(&mut model, &mut rep, fixed, &c, d);
+        }
+    }
+
+    // 2. system level
+    let mut rng = Rng::new(o.seed ^ 0x5C11);
+    for idx in 0..o.n(16, 300) {
+        let mut r = rng.fork();
+        let c = gen_sys_case(&mut r, idx);
+        if idx < 1 {
+            rep.sample(J::s(truncate(&sys_text(&c), 300)));
+        }
+        rep.count("cases", "system (real ROM)");
+        if let Some(d) = run_sys_case(&mut m10, &c, &c.tape.clone(), "C11", Some(&mut rep)) {
+            report_sys_failure(&mut rep, &c, d);
+        }
+    }
+    rep.extra.push(("model_requests".into(), J::I((model.requests + m10.requests) as i64)));
     rep
+}
+
+/// false = stop()/rewind() as found, true = with proposed_fixes/C12-1.diff.
+/// Probe: one-block tape, play, a little pilot, stop, stop, play. As found the second stop forgets
+/// the position, play restarts at `Play`, which asks for the next block, finds none and stops the
+/// deck; repaired, the pilot simply continues.
+pub fn detect_variant() -> bool {
+    let mut t = RealTap::new(&[3, 0, 0xFF, 1, 0xFE], 0);
+    t.cmd(&Cmd::Play);
+    t.cmd(&Cmd::Run { kind: 1, seed: 15, n: 1000 });
+    t.cmd(&Cmd::Stop);
+    t.cmd(&Cmd::Stop);
+    t.cmd(&Cmd::Play);
+    let o = t.cmd(&Cmd::Run { kind: 1, seed: 15, n: 400 }).unwrap();
+    !o.stopped
 }
